@@ -606,6 +606,9 @@ def units(tier):
         r.add("vacuity.must_fail_twin", DISCHARGED if ok else UNDECIDED, "twin", 0, "", kind="vacuity")
         return r
     us.append(("C10.nested_reader_protocol", n))
+    from props import c14_merge as MG
+    from props.common import wrap as _wrap
+    _wrap(us, "C10.merge_redox.removes_exactly_the_conflicting_entries", MG.unit_merge_redox, "C10")
     return us
 
 
